@@ -29,6 +29,9 @@ class Case:
 
     def __init__(self, h, pathsafe=False):
         self.h = h
+        val = VAL.replace(b"/", b"").replace(b":", b"").replace(b";", b"") if pathsafe else VAL
+        arg = ARG.replace(b":", b"") if pathsafe else ARG
+        self.pathsafe = pathsafe
         self.src = b""
         self.env = []          # (name, len, seed)
         self.tokbytes = {}     # token index -> dict(sub -> bytes)
@@ -43,11 +46,15 @@ class Case:
                 self.tokbytes[i] = {"text": b}
             elif t["t"] == "ds" and t["kind"] == "env":
                 name = b"V%d" % i
-                self.env.append((name, t["out"], i))
                 self.src += b"%{env:" + name + b"}"
-                self.tokbytes[i] = {"out": pat(VAL, i, t["out"])}
+                if pathsafe:
+                    self.envset = getattr(self, "envset", []) + [(name, pat(val, i, t["out"]))]
+                    self.tokbytes[i] = {"out": pat(val, i, t["out"])}
+                else:
+                    self.env.append((name, t["out"], i))
+                    self.tokbytes[i] = {"out": pat(VAL, i, t["out"])}
             elif t["t"] == "ds":
-                a = pat(ARG, i, t["out"])
+                a = pat(arg, i, t["out"])
                 self.src += b"%{snoopy_literal:" + a + b"}"
                 self.tokbytes[i] = {"out": a}
             elif t["t"] == "fail":
@@ -122,7 +129,14 @@ def run_cases(b, fam, cases, workdir):
             s.add("emit", "item:" + label).add("fork").add("ini", drv.hx(family_ini(fam, case, D, M, ctx)))
             for name, ln, seed in case.env:
                 s.add("envpat", drv.hx(name), ln, seed)
-            s.call("execve", label).add("endfork")
+            for name, value in getattr(case, "envset", []):
+                s.add("envset", drv.hx(name), drv.hx(value))
+            if fam == "path":
+                s.add("cleardir", drv.hx(os.path.join(ctx.w, "T").encode()))
+            s.call("execve", label)
+            if fam == "path":
+                s.add("listdir", drv.hx(os.path.join(ctx.w, "T").encode()))
+            s.add("endfork")
         sp, op = os.path.join(ctx.w, "script"), os.path.join(ctx.w, "out")
         open(sp, "w").write(s.text())
         if os.path.exists(op):
@@ -145,6 +159,8 @@ def run_cases(b, fam, cases, workdir):
                     res[cur] = {"ctx": ctx}
                 elif cur and e["ev"] in ("at", "ret") and e.get("label") == cur:
                     res[cur].setdefault(e["ev"], []).append(e)
+                elif cur and e["ev"] == "dir":
+                    res[cur]["dir"] = e
                 elif cur and e["ev"] == "child":
                     res[cur]["child"] = e
         return res
@@ -178,10 +194,18 @@ def observed_message(fam, case, o):
         if not d[0].startswith(b"<86>") or not d[0].endswith(suffix):
             return None, "datagram %r does not have the shape <86>ident[pid]: m" % d[0][:80]
         return d[0][4:len(d[0]) - len(suffix)], None
-    # path template: the file named by the expansion must hold the record
-    tdir = os.path.join(o["ctx"].w, "T")
-    names = os.listdir(tdir)
-    return None, None
+    # path template: the file named by the expansion must exist (and hold the record "m")
+    d = o.get("dir")
+    if d is None:
+        return None, "directory listing missing"
+    files = [(bytes.fromhex(n), bytes.fromhex(cont)) for n, cont in d["files"]]
+    if len(files) > 1:
+        return None, "%d files were created instead of one: %r" % (len(files), [f[0][:40] for f in files])
+    if not files:
+        return b"", None
+    if files[0][1] != b"m\n":
+        return None, "the file named by the template holds %r instead of the record" % files[0][1][:40]
+    return files[0][0], None
 
 
 def run(tier, seed, replay=None):
@@ -212,10 +236,15 @@ def run(tier, seed, replay=None):
         fams.append(("message", k, hs))
         if k == "a":
             fams.append(("ident", k, hs))                # the syslog ident uses the same expansion with D = M = 255
+    gp = c.run_tlc("MessageFormatMC.tla", "MessageFormatGenPath.cfg")
+    rep.tlc(gp)
+    fams.append(("path", "p", [json.loads(x) for x in gp.printed]))
     for fam, k, hs in fams:
         cases = []
         for i, h in enumerate(hs):
-            cs = Case(h)
+            cs = Case(h, pathsafe=(fam == "path"))
+            if fam == "path" and (sum(p_["len"] for p_ in h["cont"]) > 250 or any(t["t"] == "unknown" and False for t in h["fmt"])):
+                continue                                          # a file name cannot exceed NAME_MAX
             if b'"' in cs.src or len(cs.src) > 995:
                 continue
             cases.append(("%s%s%d" % (fam[0], k, i), cs, h["D"], h["M"]))
@@ -257,5 +286,5 @@ def run(tier, seed, replay=None):
                        "non-trivial = more than a single literal" % (3 if tier == "thorough" else 2))
     rep.assumptions += ["formats travel through one snoopy.ini line (<= 1023 bytes): longer sources are not generated",
                         "data-source outputs are realised by %{env:Vk} / %{snoopy_literal:...} with position-dependent byte patterns",
-                        "output-path templates are exercised by C04 (filetpl) only; per-component NAME_MAX prevents boundary lengths there"]
+                        "output-path templates: every format of <= 2 short tokens whose expansion fits NAME_MAX (a longer file name cannot exist); boundary lengths of PATH_MAX are not reachable"]
     return rep.finish()
